@@ -45,10 +45,16 @@ func (c *PublishHeader) WriteHTMLTo(w io.Writer) (int64, error) {
 	if c.options.ShowIndividuals {
 		badge := core.NewCountBadge(len(c.document.Individuals()))
 		title := core.NewComponents(core.NewText("Individuals "), badge)
+		// There are no letters when there is nobody to list.
+		firstIndividualsPage := "#"
+		if len(c.indexLetters) > 0 {
+			firstIndividualsPage = PageIndividuals(c.indexLetters[0])
+		}
+
 		item := core.NewNavItem(
 			title,
 			c.selectedTab == selectedIndividualsTab,
-			PageIndividuals(c.indexLetters[0]),
+			firstIndividualsPage,
 		)
 		items = append(items, item)
 	}
